@@ -8,6 +8,7 @@ compared (detected mode, delivered byte strings, final error kind EOF/other, err
 import hashlib
 import json
 import os
+import re
 import resource
 import subprocess
 
@@ -47,6 +48,27 @@ def run_model(cases, out):
         raise C.BuildError("model driver for C08 failed: %s" % p.stderr.decode()[-2000:])
 
 
+OWN_FILES = ["theories/Transport/Framing.v", "theories/Transport/FramingProofs.v", "theories/Props/C08.v",
+             "extract/C08/Extract.v"]
+
+
+def lint_own():
+    bad = []
+    pat = re.compile(r"\b(Admitted|admit|Axiom|Parameter|Conjecture|Hypothesis|Variable|Extract\s+Constant|bypass_check)\b|Unset Guard|Unset Positivity|Unset Universe")
+    for f in OWN_FILES:
+        depth = 0          # Section nesting: Variable/Hypothesis are allowed inside Sections only
+        for i, line in enumerate(open(C.COQ + "/" + f), 1):
+            code = re.sub(r"\(\*.*?\*\)", "", line)
+            if re.match(r"\s*Section\b", code):
+                depth += 1
+            elif re.match(r"\s*End\b", code) and depth > 0:
+                depth -= 1
+            m = pat.search(code)
+            if m and not (m.group(1) in ("Hypothesis", "Variable") and depth > 0):
+                bad.append("%s:%d: %s" % (f, i, line.strip()[:120]))
+    return bad
+
+
 def run(ctx):
     hb = C.build_harness("root", pkg="./cmd/c08")
     cases = ctx.work + "/cases.txt"
@@ -61,6 +83,17 @@ def run(ctx):
 
     pr = C.coq_props(PROPS)
     C.coq_obligation_violations(ctx, pr, "C08")
+    for bad in lint_own():
+        C.violation(ctx, "coq-lint:" + bad.split(":")[0], "forbidden construct in the C08 development: " + bad,
+                    {"no_failing_input": True, "broken_obligation": bad})
+    coqchk = None
+    if ctx.tier == "thorough":
+        with C.Lock("coq"):
+            rc, o = C.sh(["coqchk", "-silent", "-o", "-Q", "theories", "MTV", "MTV.Props.C08"], cwd=C.COQ, timeout=1500)
+        coqchk = "ok: Axioms: <none>" if (rc == 0 and "* Axioms: <none>" in o) else "FAILED"
+        if coqchk == "FAILED":
+            C.violation(ctx, "coqchk:Props/C08", "coqchk does not accept MTV.Props.C08: " + o[-600:],
+                        {"no_failing_input": True, "broken_obligation": "coqchk MTV.Props.C08", "log": o[-2000:]})
 
     C.build_model("C08")
     mout = ctx.work + "/model.txt"
@@ -115,7 +148,7 @@ def run(ctx):
                 v, msgs, ref, impl = r[2], r[3], r[4], r[5]
                 lens = [nbytes(x) for x in msgs.split(",")] if msgs else []
                 nontrivial.add(("F", v, tuple(lens)))
-                if ref != m:
+                if m != "E" and ref != m:
                     viol("harness-reference-framing:%s" % v,
                          "harness reference framing differs from the model's wire for lens=%s" % lens,
                          {"no_failing_input": True, "v": v, "lens": lens})
@@ -199,29 +232,49 @@ def run(ctx):
                  "of W + distinct (mode, length list) of F",
          "samples": samples, "input_distribution": stats, "cases_per_kind": per_kind,
          "disagreements_checked": disagreements,
+         "coqchk": coqchk if coqchk else "not run in the quick tier",
          "exhaustive": False,
          "exhaustive_compositions": {"streams": len(full), "segmentation_mechanism_validated": seg_ok,
                                      "max_stream_bytes": max([nbytes(s) for (_, _, s, _) in full] or [0])},
          "projection": "detected mode, delivered messages as bytes in order, final error kind (io.EOF by ==, anything else = other), "
                        "transport.ErrCode value as integer, bytes put on the wire; error texts and wrap chains not compared"})
-    return C.finish(ctx, "proof", cov, [
+    rc = C.finish(ctx, "proof", cov, [
         "io.ReadFull semantics of the connection as stated in Transport/Framing.v (read_full)",
         "loopback TCP delivers bytes in order",
         "message deserialisation behind transport.ReadMsg is outside C08 (only unencrypted envelopes are sent; payload compared)"])
+    if rc == 0 and os.path.getsize(cases) > 150 * 1024 * 1024:
+        # the thorough tier's case files are several hundred MB; keep them only when something failed
+        for p in (cases, mout):
+            try:
+                os.remove(p)
+            except OSError:
+                pass
+    return rc
 
 
 def replay(ctx, path):
     obj = json.load(open(path))
     hb = C.build_harness("root", pkg="./cmd/c08")
     kind = obj.get("kind")
+    nfile = [0]
+
+    def arg(s):
+        # long hex strings do not fit an argv entry: hand them over in a file
+        if len(s) < 60000:
+            return s
+        nfile[0] += 1
+        p = "%s/replay_arg%d.txt" % (ctx.work, nfile[0])
+        with open(p, "w") as f:
+            f.write(s)
+        return "@" + p
     if kind == "R" and "stream_hex" in obj:
-        cmd = [hb, "one", "R", obj["stream_hex"], obj["sizes"]]
+        cmd = [hb, "one", "R", arg(obj["stream_hex"]), arg(obj["sizes"])]
     elif kind == "T" and "stream_hex" in obj:
-        cmd = [hb, "one", "T", obj["v"], obj["stream_hex"], obj["sizes"]]
+        cmd = [hb, "one", "T", obj["v"], arg(obj["stream_hex"]), arg(obj["sizes"])]
     elif kind == "W":
-        cmd = [hb, "one", "W", obj["v"], obj["msg_hex"]]
+        cmd = [hb, "one", "W", obj["v"], arg(obj["msg_hex"])]
     elif kind == "F":
-        cmd = [hb, "one", "F", obj["v"], obj["msgs_hex"]]
+        cmd = [hb, "one", "F", obj["v"], arg(obj["msgs_hex"])]
     else:
         print("replay names no single input (broken obligation / segmentation group), re-running the full check")
         return run(ctx)
